@@ -12,13 +12,13 @@
     - db.RenameMailboxPerUser and db.DeleteMailboxPerUser equal the set
       semantics of Spec/Names.v (DELETE unconditionally; RENAME whenever no name
       lies below the new name)
-      (these are the [_partial] theorems: the composition with the command
-      line -- Fields/Trim versus [decode_astring] -- and with CREATE,
-      SUBSCRIBE, LSUB, ... into one theorem over histories is NOT proved; it is
-      evaluated step by step inside Coq on every run of the check).
-    Refuted (one witness history per finding class): [c11_refuted_*]. *)
+      (these are the [_partial] theorems: their composition with the command
+      line (proved separately: c11_command_line_exact, c11_name_argument_exact)
+      and with CREATE, SUBSCRIBE, LSUB, ... into one theorem over histories is NOT
+      proved; it is evaluated step by step inside Coq on every run of the check).
+    No finding class is left; the former witnesses are regression Examples. *)
 From Coq Require Import String Ascii List Bool Arith ZArith.
-From Raven Require Import Base.GoStr Base.Like Model.Pattern Model.Names Spec.Names Spec.NamesEval
+From Raven Require Import Base.GoStr Base.Like Model.Pattern Model.CmdTokenizer Spec.CmdArgs Model.Names Spec.Names Spec.NamesEval
   Proof.NamesRange Proof.NamesUpdates Proof.NamesParents Proof.NamesDb Proof.NamesArgs Proof.NamesQuote.
 Import ListNotations.
 
@@ -98,16 +98,28 @@ Theorem c11_db_delete_refines_partial : forall (st : store) (n : str),
 Proof. exact db_delete_refines. Qed.
 Print Assumptions c11_db_delete_refines_partial.
 
-(** the command-line layer, per argument: for every astring (atom or quoted) whose
-    decoded name has no double quote and no backslash, the server-side unquoting
-    (Trim of CREATE/DELETE/RENAME/SELECT/APPEND; ParseQuotedString of STATUS/LIST/LSUB
-    = the quote stripping of SUBSCRIBE/UNSUBSCRIBE) yields exactly the name the client wrote.
-    (Names with white space are split earlier by strings.Fields: class quoted_space.) *)
-Theorem c11_unquote_is_decode_partial : forall raw n : str,
-  decode_astring raw = Some n -> no_q n = true ->
-  trim raw [dq] = n /\ unquote1 raw = n.
-Proof. exact unquote_is_decode. Qed.
-Print Assumptions c11_unquote_is_decode_partial.
+(** the command-line layer (since the tokenizer fix 2599345; the tokenizer's own model and
+    theorems are property C04's, Proof/CmdTokenizer.v): for EVERY astring the client can
+    write -- atom or quoted string, any octets, blanks, double quotes and backslashes
+    included -- utils.SplitCommandLine hands the argument to the handler in one piece and
+    utils.ParseQuotedString returns exactly the name the client wrote *)
+Theorem c11_name_argument_exact : forall raw n : str,
+  decode_astring raw = Some n -> parse_quoted raw = n.
+Proof. exact arg_exact. Qed.
+Print Assumptions c11_name_argument_exact.
+
+Theorem c11_command_line_exact : forall tag word raw n : str,
+  atom_ok tag = true -> atom_ok word = true -> decode_astring raw = Some n ->
+  split_command_line (tag ++ " "%char :: word ++ " "%char :: raw) = [tag; word; raw].
+Proof. exact line_exact1. Qed.
+Print Assumptions c11_command_line_exact.
+
+Theorem c11_command_line_exact_rename : forall tag word raw1 n1 raw2 n2 : str,
+  atom_ok tag = true -> atom_ok word = true ->
+  decode_astring raw1 = Some n1 -> decode_astring raw2 = Some n2 ->
+  split_command_line (tag ++ " "%char :: word ++ " "%char :: raw1 ++ " "%char :: raw2) = [tag; word; raw1; raw2].
+Proof. exact line_exact2. Qed.
+Print Assumptions c11_command_line_exact_rename.
 
 (** the token LIST / LSUB / STATUS write for a name (utils.QuoteString) reads back, as an
     IMAP quoted string, as exactly that name: every stored name is shown faithfully *)
@@ -115,15 +127,7 @@ Theorem c11_shown_name_reads_back : forall n : str, decode_astring (quote_string
 Proof. exact quote_string_reads_back. Qed.
 Print Assumptions c11_shown_name_reads_back.
 
-(** ---- refutations: raven leaves the property in every listed class ---- *)
-Theorem c11_refuted_quoted_space : exists h c, valid_cmd c = true /\ classify (state_after h) c = Some K_quoted_space /\ refines_at (state_after h) c = false.
-Proof. exists [], (CCreate (S_ """My Folder""")). vm_compute. repeat split; reflexivity. Qed.
-Print Assumptions c11_refuted_quoted_space.
-
-Theorem c11_refuted_quoted_escape : exists h c, valid_cmd c = true /\ classify (state_after h) c = Some K_quoted_escape /\ refines_at (state_after h) c = false.
-Proof. exists [], (CCreate (S_ """q\""uote""")). vm_compute. repeat split; reflexivity. Qed.
-Print Assumptions c11_refuted_quoted_escape.
-
+(** ---- no finding class is left: every class C11 ever listed has been repaired in /repo ---- *)
 (** the witnesses of the classes repaired in fix wave 3 (rename_into_child, rename_leading_slash,
     rename_partial, inbox_rename_orphan, protected_case, inbox_twin, roles_shadow, lsub_persists,
     lsub_adds_inbox) are now outside every class and the model refines the spec on them *)
@@ -142,6 +146,17 @@ Example c11_fixed_wave3_witnesses :
      ([CSubscribe (S_ "x")], CLsub);
      ([CLsub; CSubscribe (S_ "x")], CLsub)] = true.
 Proof. vm_compute. reflexivity. Qed.
+
+(** the witnesses of quoted_space / quoted_escape: the names arrive whole, and what CREATE
+    stored is what LIST shows and what reads back *)
+Example c11_fixed_tokenizer_witnesses :
+  forallb (fun '(h, c) => match classify (state_after h) c with None => true | _ => false end && refines_at (state_after h) c)
+    [([], CCreate (S_ """My Folder"""));
+     ([], CCreate (S_ """q\""uote"""));
+     ([CCreate (S_ """My Folder""")], CRename (S_ """My Folder""") (S_ """back\\slash x"""));
+     ([CCreate (S_ """q\""uote""")], CList)] = true
+  /\ names (boxes (state_after [CCreate (S_ """q\""uote""")])) = map S_ ["INBOX"; "Sent"; "Drafts"; "Trash"; "Spam"; "q""uote"]%string.
+Proof. vm_compute. split; reflexivity. Qed.
 
 (** RENAME a a/b now gives a/b and a/b/x *)
 Example c11_rename_below_itself :
